@@ -86,10 +86,15 @@ def run_traces(ctx, prop, trace_file, label):
 
 
 def check(ctx, replay=None):
-    prop = ctx.prop
     build_harness(ctx)
     if replay:
         return do_replay(ctx, replay)
+    if run(ctx, ctx.prop) == "stop":
+        return finish(ctx, RULE)
+    return finish(ctx, RULE)
+
+
+def run(ctx, prop):
     kf = kf_open("Q1")
     forms = ["Inv_" + f for f in FORMULAS[prop]] + INTERNAL
     all_traces = ctx.path("traces.ndjson")
@@ -122,7 +127,7 @@ def check(ctx, replay=None):
             if not ctx.violations:
                 raise Inconclusive("design counterexample %s does not reproduce on the real queue: the model "
                                    "misrepresents the code" % r.violated[0])
-            return finish(ctx, RULE)
+            return "stop"
         if not r.ok:
             raise Inconclusive("TLC did not finish family %s:\n%s" % (fam, r.out[-1500:]))
         tr = ctx.path("tr%s.ndjson" % fam)
@@ -161,10 +166,10 @@ def check(ctx, replay=None):
     run_traces(ctx, prop, all_traces, "trace")
     # replayed scenarios that conform are behaviours of the checked design
     ctx.traces += scen_total - diverged
-    ctx.assumptions = ["abstract time: file times are placed hours in the past (old) or future (young) relative to a "
+    ctx.assumptions += ["abstract time: file times are placed hours in the past (old) or future (young) relative to a "
                        "one-hour last-file delay", "names within a group are ranked as Go compares strings",
                        "chunk size 0 is not combined with resumed files (the sender never configures it)"]
-    return finish(ctx, RULE)
+    return "ok"
 
 
 def do_replay(ctx, path):
